@@ -60,6 +60,8 @@ impl<E: Executor> Pool<E> {
 
                     match pool.upgrade() {
                         Some(pool) => {
+                            #[cfg(feature = "verif-hooks")]
+                            crate::verif_hooks::point("maint.scan.lock");
                             #[allow(clippy::needless_collect)]
                             let (count, dropped) = {
                                 let mut connections = pool.connections.lock().await;
@@ -82,6 +84,8 @@ impl<E: Executor> Pool<E> {
 
                                 (connections.len(), dropped)
                             };
+                            #[cfg(feature = "verif-hooks")]
+                            crate::verif_hooks::point("maint.scan.unlock");
 
                             #[cfg(feature = "tracing")]
                             let mut created = 0;
@@ -98,6 +102,8 @@ impl<E: Executor> Pool<E> {
                                     }
                                 };
 
+                                #[cfg(feature = "verif-hooks")]
+                                crate::verif_hooks::point("maint.push.lock");
                                 let mut connections = pool.connections.lock().await;
                                 let Some(connections) = connections.as_mut() else {
                                     // The transport was shut down
@@ -134,6 +140,8 @@ impl<E: Executor> Pool<E> {
                         }
                     }
 
+                    #[cfg(feature = "verif-hooks")]
+                    crate::verif_hooks::point("maint.sleep");
                     E::sleep(idle_timeout).await;
                 }
             });
@@ -147,6 +155,8 @@ impl<E: Executor> Pool<E> {
     }
 
     pub(crate) async fn shutdown(&self) {
+        #[cfg(feature = "verif-hooks")]
+        crate::verif_hooks::point("shutdown.lock");
         let connections = { self.connections.lock().await.take() };
         if let Some(connections) = connections {
             stream::iter(connections)
@@ -163,6 +173,8 @@ impl<E: Executor> Pool<E> {
 
     pub(crate) async fn connection(self: &Arc<Self>) -> Result<PooledConnection<E>, Error> {
         loop {
+            #[cfg(feature = "verif-hooks")]
+            crate::verif_hooks::point("connection.lock");
             let conn = {
                 let mut connections = self.connections.lock().await;
                 let Some(connections) = connections.as_mut() else {
@@ -202,6 +214,8 @@ impl<E: Executor> Pool<E> {
     }
 
     async fn recycle(&self, mut conn: AsyncSmtpConnection) {
+        #[cfg(feature = "verif-hooks")]
+        crate::verif_hooks::point("recycle.begin");
         if conn.has_broken() {
             #[cfg(feature = "tracing")]
             tracing::debug!("dropping a broken connection instead of recycling it");
@@ -212,6 +226,8 @@ impl<E: Executor> Pool<E> {
             #[cfg(feature = "tracing")]
             tracing::debug!("recycling connection");
 
+            #[cfg(feature = "verif-hooks")]
+            crate::verif_hooks::point("recycle.lock");
             let mut connections_guard = self.connections.lock().await;
 
             if let Some(connections) = connections_guard.as_mut() {
@@ -228,6 +244,8 @@ impl<E: Executor> Pool<E> {
                 conn.abort().await;
             }
         }
+        #[cfg(feature = "verif-hooks")]
+        crate::verif_hooks::point("recycle.end");
     }
 }
 
@@ -328,6 +346,8 @@ impl<E: Executor> Drop for PooledConnection<E> {
             .expect("AsyncSmtpConnection hasn't been taken yet");
         let pool = Arc::clone(&self.pool);
 
+        #[cfg(feature = "verif-hooks")]
+        crate::verif_hooks::point("recycle.spawn");
         E::spawn(async move {
             pool.recycle(conn).await;
         });
